@@ -206,6 +206,16 @@ pub fn run(a: &Args) {
             }
         }
     }
+    // rows in the context of a whole image: the row ABOVE that the decoder hands to the kernels must be the reconstructed previous scanline,
+    // also when deflate blocks / IDAT chunks / reads end exactly on scanline boundaries and far more than 64 KiB of rows have gone by
+    for (w, h, c, d, rpb) in [(1023u32, 100u32, 0u8, 8u8, 1usize), (700, 130, 2, 8, 1), (255, 300, 0, 8, 4), (2047, 48, 0, 16, 2)] {
+        for ff in [Some(2u8), Some(3), Some(4), None] {
+            let im = crate::c01::aligned_image(&mut rng, w, h, c, d, rpb, ff);
+            o.count("rows-in-whole-images");
+            crate::c01::check_image(&mut o, &im, &[0], false);
+            crate::c01::check_image(&mut o, &im, &[rng.range(1, 3000) as usize], false);
+        }
+    }
     if a.tier == "thorough" {
         // exhaustive rows of <= 3 pixels over a 4-value alphabet for bpp 1 and 2
         let alpha = [0u8, 1, 128, 255];
